@@ -80,6 +80,14 @@ def _world():
                 e_.call_value(c.frame, f, [x, y])
         return UNIT
     m(r'^((core|alloc|std)::)?slice::<impl \[.*\]>::sort_by$', m_sort_by)
+
+    # the list natives' own merge sort: summarised the same way (the comparator runs at least once on two or more elements)
+    def m_merge_sort(e_, a, c):
+        f = a[1]
+        while isinstance(f, Ref) and isinstance(f.cell.get(e_), Ref):
+            f = f.cell.get(e_)
+        return m_sort_by(e_, [a[0], f], c)
+    m(r'^(laythe_lib::)?(\w+::)*merge_sort$', m_merge_sort)
     return W
 
 
